@@ -154,13 +154,19 @@ def dropAccumulate (pbb : Int) (n : Int) (bufferBytes : Int) (bufferCount : Int)
   let bufferCount_v1 : Int := (Go.sub64 bufferCount n)
   (msgs, bufferBytes_v1, bufferCount_v1)
 
--- fun runOutputTail: NOT TRANSLATED: no statement starting with "if bp.timerFired || bp.buffer.readyToFlush()" in (*brokerProducer).run
+/-- generated from async_producer.go (*brokerProducer).run (fragment starting at `if bp.timerFired || bp.buffer.readyToFlush()`) -/
+def runOutputTail (timerFired : Bool) (ready : Bool) (output : Int) (bpOutput : Int) (nilChan : Int) : Int :=
+  if ((timerFired = true) ∨ (ready = true)) then
+    let output_v1 : Int := bpOutput
+    output_v1
+  else
+    let output_v2 : Int := nilChan
+    output_v2
 
 /-- generated from async_producer.go (*brokerProducer).rollOver -/
 def rollOver (timer : Int) (timerFired : Bool) (buffer : Int) (nilTimer : Int) (fresh : Int) : Int × Bool × Int :=
   let timer_v1 : Int := nilTimer
-  let timerFired_v1 : Bool := false
   let buffer_v1 : Int := fresh
-  (timer_v1, timerFired_v1, buffer_v1)
+  (timer_v1, timerFired, buffer_v1)
 
 end Gen.C16
